@@ -1,6 +1,7 @@
 import TracklibVerif.Lemmas.Proj
 import TracklibVerif.Lemmas.ProjExt
 import TracklibVerif.Lemmas.ProjTrack
+import TracklibVerif.Lemmas.ProjNear
 import Mathlib.Analysis.Real.Sqrt
 /-! # C20 — projecting a point on a polyline returns its nearest point
 
@@ -18,7 +19,8 @@ and the counter-examples, which are evaluated on the model. For every non-vertic
 is proved at the strength of the property: `proj_segment_nearest_partial` (one segment: point on it, distance
 to it, minimal), `proj_segment_horizontal` (closed form for horizontal segments), `proj_polyline_vertices` and
 `proj_polyline_nearest_partial` (polyline: index of the carrying segment, point on it, distance to it, minimal
-over every point of every segment, the skipped zero-length segments included). IEEE rounding is outside these
+over every point of every segment, the skipped zero-length segments included), `proj_polyline_skipped_partial` (a skipped
+segment of non-zero length `< 1e-16` touching a kept one is covered up to `1e-16`). IEEE rounding is outside these
 statements (the horizontal-segment defect D17 and its near-vertical counterpart exist only in floating point).
 
 Front ends (second half of the file): the argument forms of `proj_segment` / `proj_polyligne` (lists vs numpy
@@ -435,6 +437,45 @@ theorem proj_polyline_nearest_partial {sqrt : α → α} (hs : SqrtSpec sqrt) (e
     have ey : qy = q1.2 := by rw [e2]; ring
     rw [ex, ey]
     exact proj_polyline_vertices hs eps pts x y d px py i h hz j q1 t1
+
+/-- `proj_polyline_skipped_partial`: the error made by skipping a segment of NON-zero length `< eps` (`1e-16`) is at most
+`eps`. If `proj_polyligne` returns `(d, …)` and segment `j` is skipped by the `abs(dx) + abs(dy) < eps` test while one of
+its two ends is also an end of a segment that is kept (the usual case: an isolated tiny segment between two ordinary
+ones), then for every point `(qx, qy)` of the skipped segment `d ≤ |query - (qx, qy)| + eps` (the distance written with
+the `sqrt` parameter). Together with `proj_polyline_min_partial` (kept segments): on a polyline without kept vertical
+segment whose skipped segments each touch a kept one, the returned distance exceeds the true minimum by less than `eps`.
+Missing: a run of several consecutive skipped segments (the bound is then the length of the run up to the nearest kept
+end; not stated). Exact arithmetic. -/
+theorem proj_polyline_skipped_partial {sqrt : α → α} (hs : SqrtSpec sqrt) (eps : α) (pts : List (α × α))
+    (x y d px py : α) (i : Nat) (h : projPolyligne sqrt eps pts x y = .ok (d, px, py, i))
+    (j : Nat) (p1 p2 : α × α) (h1 : pts[j]? = some p1) (h2 : pts[j + 1]? = some p2)
+    (hsk : skipped eps p1.1 p1.2 p2.1 p2.2 = true)
+    (hadj : ∃ k q1 q2, pts[k]? = some q1 ∧ pts[k + 1]? = some q2 ∧ skipped eps q1.1 q1.2 q2.1 q2.2 = false ∧
+      (q1 = p1 ∨ q2 = p1 ∨ q1 = p2 ∨ q2 = p2)) :
+    ∀ qx qy, OnSeg p1.1 p1.2 p2.1 p2.2 qx qy → d ≤ sqrt (d2 x y qx qy) + eps := by
+  obtain ⟨_, d0, _, hall⟩ := proj_polyline_min_partial hs eps pts x y d px py i h
+  obtain ⟨k, q1, q2, k1, k2, hk, hends⟩ := hadj
+  obtain ⟨⟨b1, b2⟩, _⟩ := hall k q1 q2 k1 k2 hk
+  have hlt : fabs (p1.1 - p2.1) + fabs (p1.2 - p2.2) < eps := by
+    simpa [skipped] using hsk
+  intro qx qy hq
+  obtain ⟨n1, n2⟩ := onSeg_near_ends _ _ _ _ _ _ hq
+  obtain ⟨e0, ee⟩ := hs _ (d2_nonneg x y qx qy)
+  have hend : d * d ≤ d2 x y p1.1 p1.2 ∨ d * d ≤ d2 x y p2.1 p2.2 := by
+    rcases hends with e | e | e | e
+    · left; rw [← e]; exact b1
+    · left; rw [← e]; exact b2
+    · right; rw [← e]; exact b1
+    · right; rw [← e]; exact b2
+  rcases hend with hv | hv
+  · exact near_vertex_bound x y p1.1 p1.2 qx qy d _ eps d0 e0 hv ee (le_of_lt (lt_of_le_of_lt n1 hlt))
+  · exact near_vertex_bound x y p2.1 p2.2 qx qy d _ eps d0 e0 hv ee (le_of_lt (lt_of_le_of_lt n2 hlt))
+
+/-- non-vacuity of `proj_polyline_skipped_partial`: polyline `(-4,3),(4,3),(4,7/2)` with `eps = 1` skips the segment
+`(4,3)-(4,7/2)` of length `1/2`, whose first end is the end of the kept horizontal segment; query `(0,0)` → segment 0 at
+distance 3 (every point of the skipped segment is farther than 3 anyway: the bound `d ≤ |q - p| + eps` holds with room) -/
+example : (projPolyligne sqTable 1 [(-4, 3), (4, 3), (4, 7 / 2)] 0 0).toOption = some (3, 0, 3, 0)
+    ∧ skipped (1 : Rat) 4 3 4 (7 / 2) = true ∧ skipped (1 : Rat) (-4) 3 4 3 = false := by decide +kernel
 
 /-! ## Argument forms and front ends -/
 
